@@ -266,8 +266,26 @@ func (f *c17FS) symlinkSwap(b []byte, newDir, removeOld bool, ext string) error 
 	if f.layout != "symfile" {
 		return fmt.Errorf("symlink-swap in layout %s", f.layout)
 	}
+	return f.swapLink(b, newDir, removeOld, false, ext)
+}
+
+// swapLink renames a symlink to a freshly written target file over the
+// watched path. The watched path may currently be a symlink (symlink swap) or
+// a regular file (the layout changes from plain to symfile: what `ln -sfn` or
+// a deployment tool switching to a versioned-directory scheme does). The new
+// target lives in the config's own directory (sibling), in the current data
+// directory, or in a new data directory; coming from a regular file or from a
+// sibling target, "not sibling" always means another directory.
+func (f *c17FS) swapLink(b []byte, newDir, removeOld, sibling bool, ext string) error {
+	if f.layout != "symfile" && f.layout != "plain" {
+		return fmt.Errorf("symlink swap in layout %s", f.layout)
+	}
+	fromPlain := f.layout == "plain"
 	oldTarget, oldDir := f.target, f.dataDir
-	if newDir {
+	switch {
+	case sibling:
+		f.dataDir = f.cfgDir
+	case newDir || fromPlain || oldDir == f.cfgDir:
 		f.dataN++
 		f.dataDir = filepath.Join(f.root, fmt.Sprintf("data%d", f.dataN))
 		if err := os.MkdirAll(f.dataDir, 0o755); err != nil {
@@ -288,14 +306,41 @@ func (f *c17FS) symlinkSwap(b []byte, newDir, removeOld bool, ext string) error 
 		return err
 	}
 	f.target = nt
-	if removeOld {
-		if newDir {
+	f.layout = "symfile"
+	if removeOld && !fromPlain {
+		if f.dataDir != oldDir && oldDir != f.cfgDir {
 			if err := os.RemoveAll(oldDir); err != nil {
 				return err
 			}
 		} else if err := os.Remove(oldTarget); err != nil {
 			return err
 		}
+	}
+	return nil
+}
+
+// toRegular renames a finished regular file over the watched path, which is
+// currently a symlink: the layout changes from symfile to plain. The previous
+// target (its directory when it is not the config's own) is optionally removed.
+func (f *c17FS) toRegular(b []byte, removeOld bool) error {
+	if f.layout != "symfile" {
+		return fmt.Errorf("to-regular in layout %s", f.layout)
+	}
+	f.tmpN++
+	tmp := filepath.Join(f.cfgDir, fmt.Sprintf(".tmp-%d-%s", f.tmpN, f.fname))
+	if err := os.WriteFile(tmp, b, 0o644); err != nil {
+		return err
+	}
+	if err := os.Rename(tmp, f.cfgPath); err != nil {
+		return err
+	}
+	oldTarget, oldDir := f.target, f.dataDir
+	f.layout, f.target, f.dataDir = "plain", "", ""
+	if removeOld {
+		if oldDir != f.cfgDir {
+			return os.RemoveAll(oldDir)
+		}
+		return os.Remove(oldTarget)
 	}
 	return nil
 }
